@@ -36,7 +36,7 @@ def region_jobs(tier):
 
 
 # jobs of other properties that run under a symbolic allocation-failure mask: (module, name filter)
-BORROW = [("C20", lambda n: n.startswith("setter")), ("C17", lambda n: n.startswith(("api.insert.n", "lifecycle", "composite_glyphs"))), ("C12", lambda n: n.startswith("composite_trapezoids")), ("C18", lambda n: n.startswith(("header.block", "chain.create"))),
+BORROW = [("C01", lambda n: n.startswith("glue.rect")), ("C20", lambda n: n.startswith("setter")), ("C17", lambda n: n.startswith(("api.insert.n", "lifecycle", "composite_glyphs"))), ("C12", lambda n: n.startswith("composite_trapezoids")), ("C18", lambda n: n.startswith(("header.block", "chain.create"))),
           ]   # (the allocating setters of C14 are the same harnesses as C20's)
 
 
@@ -60,6 +60,6 @@ META = {
     "assumptions": ["only the functions listed under functions_under_contract are checked under allocation failure; the quantifier "
                     "'every allocation site reached by every API entry point' is covered for those only",
                     "pixman_op / validate bail paths (region operations on multi-rectangle operands) are NOT covered: symbolic execution of pixman_op does not finish"],
-    "not_covered": ["pixman_op and validate allocation-failure bail paths", "general_composite_rect scanline buffer (C04 thorough tier only)",
+    "not_covered": ["pixman_op and validate allocation-failure bail paths", 
                     "store_scanline_generic_float"],
 }
